@@ -39,7 +39,7 @@ CHECKS = {
         technique="TLC trace validation of Marshal/Unmarshal/Marshal chains: validity, equality of value trees (JsonValue.tla), fixed point, projected Go equality; TLA+ model of the type-directed mapping (Arshal.tla) with the round-trip theorem model-checked by TLC and every (type, value, options) replayed with exact predicted bytes",
         text=("Random values of random types x 10 symmetric option sets are marshaled, unmarshaled into a zero value, marshaled again (and once more); TLC requires out1 valid, accepted by "
               "Unmarshal, out2 denoting the same tree as out1 (identical bytes under Deterministic) unless omit options are present, out3 = out2 always, and - where Go equality is meaningful - "
-              "the decoded value equal to the original with nil/empty identified, floats by bit pattern and integers exactly. In addition the type-directed model spec/Arshal.tla (documented mapping between Go values and JSON for bool, string, float64, integers, slices, arrays, maps keyed by strings or integers, pointers, any, []byte and [N]byte in Base 64, time.Duration and time.Time in their decimal formats (sec..nano, unix..unixnano), and structs with omitzero/omitempty/string/case/format options) is enumerated by TLC over a bounded universe of types, values, inputs and option sets (MC_Arshal) and every case is replayed on reflect-built types with the exact predicted bytes / Go value. On the model TLC proves RoundTrip (Unmarshal accepts Marshal(v), the second output is the same JSON value - a fixed point after one round with omit options - and the decoded value equals v up to nil/empty and values written as null) and ParseRender (the rendering reads back through the byte automaton)."),
+              "the decoded value equal to the original with nil/empty identified, floats by bit pattern and integers exactly. In addition the type-directed model spec/Arshal.tla (documented mapping between Go values and JSON for bool, string, float64, integers, slices, arrays, maps keyed by strings or integers, pointers, any, []byte and [N]byte in Base 64, time.Duration and time.Time in their decimal formats (sec..nano, unix..unixnano), and structs with omitzero/omitempty/string/case/format options and an embedded fallback map) is enumerated by TLC over a bounded universe of types, values, inputs and option sets (MC_Arshal) and every case is replayed on reflect-built types with the exact predicted bytes / Go value. On the model TLC proves RoundTrip (Unmarshal accepts Marshal(v), the second output is the same JSON value - a fixed point after one round with omit options - and the decoded value equals v up to nil/empty and values written as null) and ParseRender (the rendering reads back through the byte automaton)."),
         note="Relational check between real executions with TLC deciding validity/meaning equality; Go-side equality is a projection fact. No exhaustive float32 sweep.",
         design_ref="5 (C04)"),
     "C05": dict(
@@ -56,7 +56,7 @@ CHECKS = {
         technique="TLA+ MergeTree on value trees; TLC validates that the driver's merged text is MergeTree(j1..jk) and the law chain == single unmarshal of the merged text; TLA+ model of Unmarshal's merge semantics per Go type (Arshal.tla): MergeLaw and FrameLaw model-checked by TLC, every (type, pre-existing value, input, options) replayed with the predicted Go value",
         text=("For random merge-capable types and chains of 2..4 fitting texts (nulls, missing and unknown members), the harness unmarshals the chain into one value and the JSON-level merge into "
               "a zero value. TLC recomputes the merge from the meanings of the logged texts (objects united recursively, otherwise the later side) - a mismatch with the driver's text is a machinery "
-              "error - and requires that whenever the chain succeeds the merged text is accepted and yields an equal Go value. In addition the type-directed model spec/Arshal.tla (documented mapping between Go values and JSON for bool, string, float64, integers, slices, arrays, maps keyed by strings or integers, pointers, any, []byte and [N]byte in Base 64, time.Duration and time.Time in their decimal formats (sec..nano, unix..unixnano), and structs with omitzero/omitempty/string/case/format options) is enumerated by TLC over a bounded universe of types, values, inputs and option sets (MC_Arshal) and every case is replayed on reflect-built types with the exact predicted bytes / Go value. On the model TLC proves for all pairs of inputs: j2 into (j1 into zero), whenever both succeed, equals merge(j1, j2) into zero (MergeLaw), and fields / entries not mentioned are kept (FrameLaw); the replay covers every pre-existing value (nil, empty, populated; allocated pointers; held interface values), not only those reachable by a first unmarshal."),
+              "error - and requires that whenever the chain succeeds the merged text is accepted and yields an equal Go value. In addition the type-directed model spec/Arshal.tla (documented mapping between Go values and JSON for bool, string, float64, integers, slices, arrays, maps keyed by strings or integers, pointers, any, []byte and [N]byte in Base 64, time.Duration and time.Time in their decimal formats (sec..nano, unix..unixnano), and structs with omitzero/omitempty/string/case/format options and an embedded fallback map) is enumerated by TLC over a bounded universe of types, values, inputs and option sets (MC_Arshal) and every case is replayed on reflect-built types with the exact predicted bytes / Go value. On the model TLC proves for all pairs of inputs: j2 into (j1 into zero), whenever both succeed, equals merge(j1, j2) into zero (MergeLaw), and fields / entries not mentioned are kept (FrameLaw); the replay covers every pre-existing value (nil, empty, populated; allocated pointers; held interface values), not only those reachable by a first unmarshal."),
         note="Sampled; Go value equality is a projection fact; raw values and []byte are outside the merge-capable universe.",
         design_ref="5 (C14)"),
     "C15": dict(
